@@ -220,6 +220,8 @@ def gen_doc(rng, ext):
     return t.encode("utf-8")
 
 
+import mimetypes as _mt
+MIME_EXTS = sorted(set(_mt.types_map) | set(_mt.common_types))
 EMPTY_ZIP = b"PK\x05\x06" + b"\x00" * 18
 BROKEN_FIXTURES: list = []   # truncated real documents, filled by run()
 GOOD_EXT = [".txt", ".md", ".csv", ".json", ".html", ".tsv", ".TXT", ".Json", ".htm"]
@@ -243,8 +245,12 @@ def gen_members(rng, nmax, fixtures=None, allow_empty=True):
         elif r < 0.22:
             name, kind, data = "__MACOSX/" + d + "._res" + str(len(out)) + ".txt", "data", gen_doc(rng, ".txt")
         elif r < 0.30:
-            name, kind = d + rng.choice(STEMS) + rng.choice([".bin", ".exe", ".xyz", "", ".docx.bak"]), "data"
-            data = gen_doc(rng, ".bin")
+            # extensions the router has no extractor for - half of them drawn from the host's MIME database (.xml, .svg,
+            # .css, .png, .taz ...): whatever is_supported_file / the MIME fallback say about them, the member may only
+            # affect itself
+            ext = rng.choice(MIME_EXTS) if rng.random() < 0.5 else rng.choice([".bin", ".exe", ".xyz", "", ".docx.bak", ".xml", ".xsl"])
+            name, kind = d + rng.choice(STEMS) + ext, "data"
+            data = gen_doc(rng, rng.choice([".bin", ".txt", ".html"]))
         elif r < 0.36:
             name, kind = d + rng.choice(["inner", "nested.v1"]) + rng.choice([".zip", ".7z", ".tar", ".tgz", ".tar.gz", ".TAR.XZ"]), "data"
             data = gen_doc(rng, ".bin")
@@ -713,6 +719,41 @@ def mutate_bytes(rng, hb):
             del hb[rng.randrange(len(hb)):]
     return bytes(hb)
 
+def path_label_shape(ctx):
+    """Fail-closed inventory: _process_archive_entry must build the result path as
+    f"{archive_path}!/{filename}" if archive_path else filename   and hand exactly that to the member's extractor
+    (the shape the model's full_path and the theorems C10_path_label / C10_zip_labels / C10_tar_labels describe)."""
+    import ast
+    import inspect
+    from sharepoint2text.parsing.extractors import archive_extractor as ae
+    problems = []
+    try:
+        fn = ast.parse(inspect.getsource(ae._process_archive_entry)).body[0]
+        assigns = [n for n in ast.walk(fn) if isinstance(n, ast.Assign) and any(isinstance(t, ast.Name) and t.id == "full_path" for t in n.targets)]
+        if len(assigns) != 1:
+            problems.append(f"{len(assigns)} assignments to full_path")
+        else:
+            v = assigns[0].value
+            ok = (isinstance(v, ast.IfExp) and isinstance(v.test, ast.Name) and v.test.id == "archive_path"
+                  and isinstance(v.orelse, ast.Name) and v.orelse.id == "filename" and isinstance(v.body, ast.JoinedStr)
+                  and len(v.body.values) == 3
+                  and isinstance(v.body.values[0], ast.FormattedValue) and isinstance(v.body.values[0].value, ast.Name)
+                  and v.body.values[0].value.id == "archive_path" and v.body.values[0].conversion == -1 and v.body.values[0].format_spec is None
+                  and isinstance(v.body.values[1], ast.Constant) and v.body.values[1].value == "!/"
+                  and isinstance(v.body.values[2], ast.FormattedValue) and isinstance(v.body.values[2].value, ast.Name)
+                  and v.body.values[2].value.id == "filename" and v.body.values[2].conversion == -1 and v.body.values[2].format_spec is None)
+            if not ok:
+                problems.append("full_path is not  f\"{archive_path}!/{filename}\" if archive_path else filename : " + ast.unparse(v)[:120])
+        calls = [n for n in ast.walk(fn) if isinstance(n, ast.Call) and isinstance(n.func, ast.Name) and n.func.id == "extractor"]
+        if not calls or not all(any(k.arg == "path" and isinstance(k.value, ast.Name) and k.value.id == "full_path" for k in c.keywords) for c in calls):
+            problems.append("extractor(...) is not called with path=full_path")
+        if any(isinstance(n, (ast.AugAssign, ast.AnnAssign)) and getattr(getattr(n, "target", None), "id", None) == "full_path" for n in ast.walk(fn)):
+            problems.append("full_path is modified after it is built")
+    except Exception as e:  # noqa
+        problems.append("cannot analyse _process_archive_entry: " + repr(e))
+    ctx.obligation("inventory:path-label-shape(_process_archive_entry builds archive!/name)", not problems, "; ".join(problems))
+
+
 # ----------------------------------------------------------------------------- property oracle
 def check_members(ctx, key, what, fmt, desc, members, arch, apath, empties_expected=True, skip_idx=None):
     """read_archive(arch) must equal the direct extraction of each supported visible member, in order.
@@ -766,15 +807,16 @@ def run(ctx):
         "router.is_supported_file/get_extractor and the member extractors, str.lower",
         "7z header byte parsing is modelled (coq/C10/Parse.v, fuel-explicit) and tied by a differential run on written, "
         "mutated and encoded headers (parsed reader state and error class compared); termination is proved; the "
-        "parse-after-serialise round trip is proved for plain headers (single-coder folders, attributes without External "
+        "parse-after-serialise round trip is proved for plain headers (coder chains with bind pairs, attributes without External "
         "byte or absent), composed into C10_7z_members_exact_from_bytes; the Coq serialiser is tied to the Python writer by a "
-        "differential run; encoded headers, multi-coder folders and the External-byte attribute dialect are covered by the "
+        "differential run; encoded headers and the External-byte attribute dialect are covered by the "
         "correspondence only; the Python writer is validated against libarchive 3.8; struct.unpack and zlib.crc32 are oracles",
         "the temporary directory of the 7z path is modelled as a name->bytes map (path confinement is C09)",
     ]
     ctx.assumptions += ["member names are normalised relative POSIX paths (C09 covers hostile names)",
                         "POSIX os.path.basename; CPython 3.12 zipfile/tarfile/lzma as oracles"]
     gen_tables(ctx)
+    path_label_shape(ctx)
 
     # ---- proofs
     ctx.prove("C10/Props.v", ["C10/Proofs.vo", "C10/Term.vo", "C10/RoundTrip.vo"], expected=[
@@ -782,7 +824,7 @@ def run(ctx):
         "C10_7z_number_roundtrip", "C10_7z_name_roundtrip", "C10_7z_bitvector_roundtrip",
         "C10_7z_streams_info_roundtrip", "C10_7z_ser_streams_shape", "C10_7z_wf_header_satisfiable",
         "C10_7z_files_info_roundtrip", "C10_7z_archive_roundtrip", "C10_7z_members_exact_from_bytes",
-        "C10_7z_from_bytes_satisfiable",
+        "C10_7z_from_bytes_satisfiable", "C10_path_label", "C10_zip_labels", "C10_tar_labels",
         "C10_7z_members_exact", "C10_7z_hypothesis_satisfiable", "C10_7z_members_exact_no_substreams",
         "C10_7z_multi_folder_refuted", "C10_7z_no_substreams_refuted", "C10_7z_empty_file_refuted",
         "C10_7z_corrupt_member_local_refuted", "C10_zip_members_exact", "C10_tar_members_exact",
@@ -835,6 +877,40 @@ def run(ctx):
         key = f"7z-multi-folder:{desc['coder']}" if nfold >= 2 else f"7z-members:{desc['layout']}:{desc['coder']}"
         check_members(ctx, key, "7z member does not come out as itself", "7z", desc, members, arch, "big.7z",
                       empties_expected=False)
+    # large members: folders of 6-60 KB in which a late member repeats (part of) an early one with distinct data between
+    # (matches that reach far back in a solid folder; identical content under different names)
+    def big_text(nbytes):
+        out = []
+        while sum(len(x) + 1 for x in out) < nbytes:
+            out.append(format(rng.getrandbits(rng.choice([16, 32, 48])), "x"))
+        return (" ".join(out)[:nbytes] + "\n").encode()
+    for i in range(ctx.n(12, 80)):
+        base = big_text(rng.randint(600, 5000))
+        members = [("2023/terms%d.txt" % i, "data", base)]
+        for j in range(rng.randint(1, 3)):
+            members.append(("docs/filler%d-%d.%s" % (i, j, rng.choice(["txt", "md", "csv"])), "data", big_text(rng.randint(1500, 12000))))
+        rep = base if rng.random() < 0.5 else base[rng.randrange(len(base) // 2):] + b"changed tail\n"
+        members.append(("2024/terms%d.txt" % i, "data", rep))
+        if rng.random() < 0.5:
+            members.append(("2024/de/agb%d.txt" % i, "data", base))
+        if rng.random() < 0.3:
+            members.insert(rng.randint(0, len(members)), ("assets/settings%d.xml" % i, "data", b"<?xml version='1.0'?><a/>"))
+        nd = len(members)
+        kind = rng.choice(["lzma2", "lzma2", "lzma", "mixed"])
+        cuts = [nd] if rng.random() < 0.6 else [nd - 1, 1] if rng.random() < 0.5 else [1, nd - 1]
+        kinds = [rng.choice(["lzma", "lzma2"]) for _ in cuts] if kind == "mixed" else kind
+        arch, _, _ = Z.pack(members, cuts, kinds, substreams=rng.choice(["7zip", "full"]))
+        desc = {"layout": "solid" if len(cuts) == 1 else "two-folders", "cuts": cuts, "coder": kind,
+                "folder_bytes": sum(len(m[2]) for m in members)}
+        ctx.case(("7z-large", desc), True, kind=f"7z-large:{kind}")
+        check_members(ctx, f"7z-large-folder:{kind}", "7z member of a large folder does not come out as itself", "7z", desc,
+                      members, arch, "big%d.7z" % i, empties_expected=False)
+        if i % 3 == 0:
+            check_members(ctx, "zip-identical-content-members", "ZIP members with identical content do not each come out as themselves",
+                          "zip", {"method": "deflated", "members": nd}, members, write_zip(members, zipfile.ZIP_DEFLATED), "big%d.zip" % i)
+            check_members(ctx, "tar-identical-content-members", "TAR members with identical content do not each come out as themselves",
+                          "tar", {"compression": "xz", "members": nd}, members, write_tar(members, "xz"), "big%d.tar.xz" % i)
+
     # no SubStreamsInfo (valid by the format specification, 7-Zip reads it; libarchive refuses it)
     for i in range(ctx.n(6, 40)):
         members = [m for m in gen_members(rng, 5) if m[1] != "empty"]
@@ -940,6 +1016,15 @@ def run(ctx):
             off0 = struct.unpack("<Q", arch[12:20])[0]
             area0 = arch[32:32 + off0] if not desc.get("encoded_header") else Z.pack(members, desc["cuts"], "copy")[2]
             if not desc.get("encoded_header"):
+                if H2["folders"] and rng.random() < 0.35:
+                    # a coder chain (BCJ filter in front of the codec): bind pairs in the folder record
+                    H2["folders"] = [dict(f) for f in H2["folders"]]
+                    fch = rng.choice(H2["folders"])
+                    fch["coders"] = [(b"\x03\x03\x01\x03", None)] + list(fch["coders"])
+                    fch["unpack"] = list(fch["unpack"]) + list(fch["unpack"])
+                    if rng.random() < 0.4:
+                        fch["coders"] = [(b"\x00", None)] + fch["coders"]
+                        fch["unpack"] = fch["unpack"][:1] + fch["unpack"]
                 hb0 = Z.header_bytes(H2)
                 arch0 = reassemble(area0, hb0)
                 ss0 = H2.get("ss")
@@ -1146,6 +1231,8 @@ def run(ctx):
     for i in range(ctx.n(3, 20)):
         members = gen_members(rng, 4, fixtures=fixtures)
         comp = rng.choice(["", "gz", "xz"])
+        if comp == "" and not members:   # an empty plain TAR carries no magic (see above): outside the quantifier
+            members = [("only.txt", "data", b"only member\n")]
         arch = write_tar(members, comp)
         ctx.case(("tar-fixture", comp, [(m[0], m[1], len(m[2])) for m in members]), len(members) >= 2, kind="tar:fixtures")
         check_members(ctx, f"tar-members:{comp or 'plain'}", "TAR member does not come out as itself", "tar", comp or "plain",
@@ -1244,9 +1331,9 @@ META = {
                   "7z folder aborting, TAR magic shadowed by a member name) are proved with witnesses and replayed.",
     "level_note": "Trusted: Coq kernel+VM; G-dump printer; hand-written models tied by differential runs. The 7z byte-level "
                   "header parser is modelled and proved terminating; its round trip with the writer (Coq serialiser == Python "
-                  "writer, differential) gives C10_7z_members_exact_from_bytes for plain headers with single-coder folders. "
-                  "Outside the theorems (correspondence only): encoded headers (need the lzma oracle to be a codec pair), "
-                  "multi-coder folders with bind pairs, the External-byte attribute dialect (the implementation does not read "
+                  "writer, differential) gives C10_7z_members_exact_from_bytes for plain headers (coder chains with bind pairs included "
+                  "in the header round trip). Outside the theorems (correspondence only): encoded headers (need the lzma oracle "
+                  "to be a codec pair), the External-byte attribute dialect (the implementation does not read "
                   "that byte), real password-protected/damaged member documents (third-party extractors: property oracle only). "
                   "lzma/zipfile/tarfile/zlib.crc32/struct and the member extractors are oracles; temp-dir modelled as a map.",
 }
